@@ -470,7 +470,9 @@ C17_WORKLOADS = [
     ("paths", "C11", 19), ("paths", "C12", 31), ("paths", "C19", 7),
     ("io", "C13", 600), ("io", "C14", 600),
 ]
-C17_FLAVORS = {"quick": ["asan", "debug", "o2", "clang-asan"], "thorough": ["asan", "debug", "o2", "o0", "clang-asan", "clang-o2", "valgrind"]}
+C17_FLAVORS = {"quick": ["asan", "debug", "o2", "clang-asan", "valgrind"], "thorough": ["asan", "debug", "o2", "o0", "clang-asan", "clang-o2", "valgrind"]}
+# the quick tier runs only a thin slice under valgrind memcheck (uninitialised reads are invisible to ASan / UBSan)
+C17_VALGRIND_QUICK = {("hist", "C04"), ("hist", "C05"), ("hist", "C03"), ("paths", "C11"), ("paths", "C12"), ("io", "C14"), ("shape", "C09")}
 
 
 def run_c17(prop, tier, seed):
@@ -496,8 +498,10 @@ def run_c17(prop, tier, seed):
             prefix = ["valgrind", "--quiet", "--error-exitcode=66", "--exit-on-first-error=yes", "--track-origins=yes", "--num-callers=25"]
         fl_calls = 0
         for eng, wl, amount in C17_WORKLOADS:
+            if fl == "valgrind" and tier == "quick" and (eng, wl) not in C17_VALGRIND_QUICK:
+                continue
             binary = bins[(fl, eng)]
-            slow = 25 if fl == "valgrind" else 1
+            slow = (60 if tier == "quick" else 25) if fl == "valgrind" else 1
             if eng in ("hist", "io"):
                 cases = max(64, amount * mult // slow)
                 extra = []
@@ -508,8 +512,8 @@ def run_c17(prop, tier, seed):
                 cases = total
                 extra = ["--x-stride", str(stride)]
             tw = time.time()
-            r = V.run_sharded(wl, binary, extra, cases, seed, "quick", V.NCPU, 1800 if tier == "quick" else 14400, replay_dir(prop), prefix=prefix,
-                              tag="c17-%s-%s" % (fl, wl))
+            r = V.run_sharded(wl, binary, extra, cases, seed, "quick", V.NCPU if fl != "valgrind" or tier != "quick" else 8, 1800 if tier == "quick" else 14400,
+                              replay_dir(prop), prefix=prefix, tag="c17-%s-%s" % (fl, wl))
             if os.environ.get("VERIF_VERBOSE"):
                 log("[c17] %-10s %s %.1fs" % (fl, wl, time.time() - tw))
             if r.inconclusive and not res.inconclusive:
@@ -580,6 +584,9 @@ def run_c17(prop, tier, seed):
         "exhaustive": False,
     }
     floors = {"digests_compared": len(C17_WORKLOADS) * (len(flavors) - (1 if "valgrind" in flavors else 0))}
+    res.counters["workload_runs"] = sum(1 for fl in flavors for eng, wl, _ in C17_WORKLOADS
+                                        if not (fl == "valgrind" and tier == "quick" and (eng, wl) not in C17_VALGRIND_QUICK))
+    coverage["counters"] = res.counters
     return V.conclude(prop, tier, seed, "exploration", res, coverage, [
         "sanitizers see only the executions driven here; intra-object overflows and accesses far beyond a red zone can escape ASan (libstdc++ assertions / debug mode close that gap for standard containers only)",
         "libstdc++ is the standard library in every configuration (clang++ uses it too); libc++ is not installed",
@@ -609,7 +616,7 @@ for p in PATHS_PLAN:
     PROPS[p] = {"title": TITLES[p], "run": run_paths, "engines": [("paths", "asan")]}
 for p in IO_PLAN:
     PROPS[p] = {"title": TITLES[p], "run": run_io, "engines": [("io", "asan")] + ([("io", "plain")] if p in ("C14", "C15") else [])}
-PROPS["C17"] = {"title": TITLES["C17"], "run": run_c17, "engines": [(e, f) for e in ("hist-lite", "shape-lite", "paths", "io-lite") for f in ("asan", "debug", "o2", "clang-asan")]}
+PROPS["C17"] = {"title": TITLES["C17"], "run": run_c17, "engines": [(e, f) for e in ("hist-lite", "shape-lite", "paths", "io-lite") for f in ("asan", "debug", "o2", "clang-asan", "plain")]}
 PROPS["C18"] = {"title": TITLES["C18"], "run": run_c18, "engines": [("race", "tsan"), ("race", "clang-tsan")]}
 PROPS["C07"] = {"title": TITLES["C07"], "run": run_c07, "engines": [("reject", "asan")]}
 
